@@ -433,6 +433,8 @@ class bspline(object):
         if nbkpt <= 2*self.nord:
             return -2
         err = np.atleast_1d(err)
+        if err.size == 0:
+            return -2
         hmm = err[uniq(err//self.npoly)]//self.npoly
         n = nbkpt - self.nord
         if np.any(hmm >= n):
